@@ -10,8 +10,8 @@ import "github.com/oasisprotocol/curve25519-voi/internal/field"
 func init() {
 	VerifC20Reg["coordLimbs"] = func(p *EdwardsPoint) [4][]uint64 {
 		return [4][]uint64{
-			field.VerifLimbs(&p.inner.X), field.VerifLimbs(&p.inner.Y),
-			field.VerifLimbs(&p.inner.Z), field.VerifLimbs(&p.inner.T),
+			field.VerifC04Limbs(&p.inner.X), field.VerifC04Limbs(&p.inner.Y),
+			field.VerifC04Limbs(&p.inner.Z), field.VerifC04Limbs(&p.inner.T),
 		}
 	}
 }
